@@ -182,8 +182,13 @@ def _in_constraints(it, name):
     f['#note'] = it.fresh_str('comment')
     f['max_nulls'] = it.fresh(T.int, 'max_nulls')
     f['frobnicate'] = it.fresh(T.int, 'unknown_value')
-    it.ghost['ifd'] = dict(is_date=is_date, form=form, bound=bound, prec=prec, max_nulls=f['max_nulls'])
-    return OD((('fields', OD((('fld', f),))),))
+    # creation metadata: a count that may be 0, a text that may be empty, a null entry and a key the format
+    # does not know
+    md = OD((('n_records', it.fresh(T.nat, 'n_records')), ('user', it.fresh_str('user')), ('host', None),
+             ('favourite_colour', it.fresh_str('unknown_metadata'))))
+    it.ghost['ifd'] = dict(is_date=is_date, form=form, bound=bound, prec=prec, max_nulls=f['max_nulls'],
+                           n_records=md['n_records'], user=md['user'])
+    return OD((('fields', OD((('fld', f),))), ('creation_metadata', md)))
 
 
 @specfn
@@ -191,9 +196,15 @@ def ifd(it, key):
     return it.ghost['ifd'][key]
 
 
+@specfn
+def stored(it, obj, name):
+    """The value the object holds under this attribute name (None when it holds none)."""
+    return obj.attrs.get(name)
+
+
 contract(BASE + 'DatasetConstraints.initialize_from_dict', props=['C09'],
          params=dict(in_constraints=T.custom(_in_constraints)), self_view=_ifd_view, on_entry=_ifd_setup,
-         spec_env=dict(ENV, ifd=ifd, is_parsed_form_of=is_parsed_form_of),
+         spec_env=dict(ENV, ifd=ifd, stored=stored, is_parsed_form_of=is_parsed_form_of),
          inline=[BASE + n for n in ('Constraint.__init__', 'Constraint.check_validity', 'constraint_class',
                                     'MinConstraint.__init__', 'MaxNullsConstraint.__init__',
                                     'TypeConstraint.__init__', 'FieldConstraints.__init__',
@@ -213,7 +224,11 @@ contract(BASE + 'DatasetConstraints.initialize_from_dict', props=['C09'],
                   ('null-bound-kept-null',
                    "ifd('form') != 2 or self.fields['fld'].constraints['min'].value is None"),
                   ('precision-kept',
-                   "self.fields['fld'].constraints['min'].precision == (ifd('prec') if ifd('form') == 1 else None)")])
+                   "self.fields['fld'].constraints['min'].precision == (ifd('prec') if ifd('form') == 1 else None)"),
+                  ('known-creation-metadata-kept-whatever-its-value-zero-and-empty-included',
+                   "stored(self, 'n_records') == ifd('n_records') and stored(self, 'user') == ifd('user')"),
+                  ('null-and-unknown-metadata-not-stored',
+                   "not hasattr(self, 'host') and not hasattr(self, 'favourite_colour')")])
 
 
 class _IFD(Contract):
